@@ -10,6 +10,29 @@ const MAXLEN: usize = 10;
 
 /// slice of length 0..=MAXLEN with prescribed zero/ones shapes
 fn slice(max: usize) -> BoxedStrategy<Vec<u64>> {
+    // one slice in six is stretched to a long length (11..=80 limbs) by a run inserted in the
+    // middle: "all slice lengths" includes lengths at which a kernel could switch strategy
+    (short_slice(max), 0u8..6, 11usize..=80, 0u8..4, limb(), 0..=MAXLEN).prop_map(move |(v, stretch, long, kind, w, at)| {
+        if stretch != 0 || max < MAXLEN || v.is_empty() {
+            return v;
+        }
+        let at = at.min(v.len());
+        let mut out = v[..at].to_vec();
+        for k in 0..long - v.len() {
+            out.push(match kind {
+                0 => 0,
+                1 => u64::MAX,
+                2 => w,
+                _ => w.wrapping_mul(0x9E37_79B9_7F4A_7C15).wrapping_add(k as u64).rotate_left(k as u32 % 64),
+            });
+        }
+        out.extend_from_slice(&v[at..]);
+        out
+    })
+    .boxed()
+}
+
+fn short_slice(max: usize) -> BoxedStrategy<Vec<u64>> {
     (limbs(MAXLEN), 0..=max, 0u8..8, 0..=MAXLEN, 0..=MAXLEN)
         .prop_map(|(mut v, len, shape, i, j)| {
             v.truncate(len);
@@ -363,7 +386,7 @@ fn body_shift<const B: usize, const L: usize>(c: &Case, rec: &mut Rec) -> R {
 // ------------------------------------------------------------------ cmp
 
 fn strat_cmp(_: usize) -> BoxedStrategy<Case> {
-    (slice(MAXLEN), slice(MAXLEN), 0u8..5, 0..MAXLEN, limb())
+    (slice(MAXLEN), slice(MAXLEN), 0u8..5, 0..100usize, limb())
         .prop_map(|(a, mut b, rel, pos, x)| {
             b.resize(a.len(), 0);
             match rel {
@@ -387,6 +410,35 @@ fn strat_cmp(_: usize) -> BoxedStrategy<Case> {
         .boxed()
 }
 
+/// Fixed list: for every length 1..=80 and every position p, two slices that agree everywhere
+/// except that the limb at p differs by one, while the limbs below p order the other way round
+/// (so that skipping the limb at p gives the opposite answer) or are equal (so that it gives
+/// Equal).
+fn enum_cmp_single_difference(f: &mut dyn FnMut(&Case) -> R) -> R {
+    for len in 1..=80usize {
+        for p in 0..len {
+            for below in 0..2 {
+                let mut a: Vec<u64> = (0..len).map(|i| (i as u64).wrapping_mul(0x9E37_79B9_7F4A_7C15) | 1).collect();
+                let mut b = a.clone();
+                b[p] = a[p].wrapping_add(1);
+                if b[p] == 0 {
+                    a[p] = 5;
+                    b[p] = 6;
+                }
+                if below == 1 {
+                    for i in 0..p {
+                        a[i] = u64::MAX;
+                        b[i] = 0;
+                    }
+                }
+                f(&Case::new().l(a.clone()).l(b.clone()))?;
+                f(&Case::new().l(b).l(a))?;
+            }
+        }
+    }
+    Ok(())
+}
+
 fn body_cmp<const B: usize, const L: usize>(c: &Case, rec: &mut Rec) -> R {
     let (a, b) = (&c.l[0], &c.l[1]);
     let e = big(a).cmp(&big(b));
@@ -402,7 +454,7 @@ fn body_cmp<const B: usize, const L: usize>(c: &Case, rec: &mut Rec) -> R {
 fn main() {
     let spec = PropSpec {
         id: "C15",
-        rule_text: "slice-level generators: accumulator/operand lengths 0..=10 independently; contents from the boundary alphabet reshaped with zero low / high / middle limbs, all-ones limbs and runs, accumulators pre-filled with all-ones; equal lengths where a kernel states it (addmul_n panics on unequal lengths, which is checked); adc_n/sbb_n with rhs at least as long as lhs and a full carry / borrow word (0, 1, 2, u64::MAX, alphabet; exact identity incl. carry-out 2); scalar adc/sbb enumerated over the full square of a ~500-word boundary alphabet x 8 carry words, carrying_add/borrowing_sub x both flags; shift amounts 0..=63; cmp on equal-length slices incl. equal / one-limb-different pairs. Oracle: exact integer identities in num-bigint / u128 (e.g. lhs + a*b = lhs' + carry*2^(64n); lhs_old + borrow*2^(64n) = lhs_new + a*b). Non-trivial: non-empty operands with a zero or all-ones limb, or an accumulator shorter than the product, or a carry rippling beyond the product window (addmul); every non-empty case for the other kernels; distinct by inputs.",
+        rule_text: "slice-level generators: accumulator/operand lengths 0..=10 independently, one slice in six stretched to 11..=80 limbs by an inserted run (zeros, ones, a word, noise); contents from the boundary alphabet reshaped with zero low / high / middle limbs, all-ones limbs and runs, accumulators pre-filled with all-ones; equal lengths where a kernel states it (addmul_n panics on unequal lengths, which is checked); adc_n/sbb_n with rhs at least as long as lhs and a full carry / borrow word (0, 1, 2, u64::MAX, alphabet; exact identity incl. carry-out 2); scalar adc/sbb enumerated over the full square of a ~500-word boundary alphabet x 8 carry words, carrying_add/borrowing_sub x both flags; shift amounts 0..=63; cmp on equal-length slices incl. equal / one-limb-different pairs, plus the fixed list of all (length 1..=80, position) single-limb differences with opposite or equal ordering below the position. Oracle: exact integer identities in num-bigint / u128 (e.g. lhs + a*b = lhs' + carry*2^(64n); lhs_old + borrow*2^(64n) = lhs_new + a*b). Non-trivial: non-empty operands with a zero or all-ones limb, or an accumulator shorter than the product, or a carry rippling beyond the product window (addmul); every non-empty case for the other kernels; distinct by inputs.",
         assumptions: vec![
             "num-bigint / u128 arithmetic is correct (oracle)",
             "the carry / borrow parameter of adc, sbb, adc_n, sbb_n is taken to be a full u64 word as the signatures state (in-tree callers only pass 0 or 1); unequal lengths for addmul_nx1/submul_nx1 are outside the callers' domain and not asserted",
@@ -423,6 +475,7 @@ fn main() {
             jobs.fixed_list("borrowing_sub_alphabet_square", 0, |f| enum_words(3, f), body_words::<0, 0>);
             jobs.gen("shift_small", 0, 60_000, || strat_shift(0), body_shift::<0, 0>);
             jobs.gen("cmp", 0, 40_000, || strat_cmp(0), body_cmp::<0, 0>);
+            jobs.fixed_list("cmp_single_difference", 0, |f| enum_cmp_single_difference(f), body_cmp::<0, 0>);
         },
         |_| Map::new(),
     );
